@@ -686,6 +686,13 @@ func genStreamPerturbation(t *rapid.T, datas [][]byte, concat []byte, lay Layout
 			return p
 		}
 		ci := rapid.IntRange(0, nd-2).Draw(t, lbl("schunk"))
+		if ci > 0 && len(p.datas[ci]) == BlockSize+CRCSize && len(p.datas[ci+1]) == BlockSize+CRCSize {
+			// two interior full size blocks: the block format carries no sequence number,
+			// their order is guarded by the chunk ids of the transport (C15), not by the
+			// stream validator, and a swap is neither a bit flip nor a truncation
+			p.name = "noop"
+			return p
+		}
 		p.datas[ci], p.datas[ci+1] = p.datas[ci+1], p.datas[ci]
 	}
 	return p
